@@ -97,7 +97,7 @@ def --env bump [] {{
   run: {{|frame|
     {busy}
     {explicit}
-    {{seen: $frame.id, topic: $frame.topic, n: (bump)}}
+    {{seen: $frame.id, topic: $frame.topic, ctx: $frame.context_id, hash: ($frame.hash? | default "none"), meta: ($frame.meta? | default null), n: (bump)}}
   }}
 }}
 "#,
@@ -216,12 +216,27 @@ fn run_in(case: &C14Case, nu: &mut Nu) -> Result<CaseInfo, Fail> {
             start_delay_us: 0,
             frames: b
                 .iter()
-                .map(|(own, eph)| {
+                .enumerate()
+                .map(|(i, (own, eph))| {
                     (
                         fspec(
                             "trig",
                             if *own { hctx } else { other },
-                            None,
+                            // every other trigger carries meta: the closure must be handed the frame as stored
+                            if i % 2 == 1 {
+                                Some(MetaVal::O(vec![
+                                    ("k".into(), MetaVal::I(i as i64 - 3)),
+                                    (
+                                        "nested".into(),
+                                        MetaVal::O(vec![(
+                                            "a".into(),
+                                            MetaVal::A(vec![MetaVal::I(1), MetaVal::S("x \u{e9}".into()), MetaVal::Null, MetaVal::F(1.5f64.to_bits()), MetaVal::Bool(true)]),
+                                        )]),
+                                    ),
+                                ]))
+                            } else {
+                                None
+                            },
                             // ephemeral triggers only where no replay can be in progress (tail)
                             if *eph && tail { Some(WTtl::Ephemeral) } else { None },
                         ),
@@ -364,6 +379,20 @@ fn run_in(case: &C14Case, nu: &mut Nu) -> Result<CaseInfo, Fail> {
             )));
         }
         let s = v["seen"].as_str().unwrap_or("").to_string();
+        // the closure is handed the frame as it is stored (synthetic markers are not stored)
+        if let Some(fr) = all.iter().find(|w| w.id == s) {
+            let want_hash = fr.hash.clone().unwrap_or("none".into());
+            let want_meta = fr.meta_json().unwrap_or(serde_json::Value::Null);
+            if v["ctx"].as_str() != Some(&fr.ctx) || v["hash"].as_str() != Some(&want_hash) || v["meta"] != want_meta || v["topic"].as_str() != Some(&fr.topic) {
+                return Err(Fail::new(
+                    Class::Field,
+                    format!(
+                        "the closure was handed frame {s} as (topic {}, context {}, hash {}, meta {}), the stored frame is (topic {:?}, context {}, hash {want_hash}, meta {want_meta})",
+                        v["topic"], v["ctx"], v["hash"], v["meta"], fr.topic, fr.ctx
+                    ),
+                ));
+            }
+        }
         if meta_of(o, "frame_id").as_deref() != Some(&s) {
             return Err(Fail::new(Class::Field, format!("h.out {} is stamped frame_id {:?} but the closure was given frame {s}", o.id, meta_of(o, "frame_id"))));
         }
